@@ -31,7 +31,8 @@ type dop struct {
 	Slot int    `json:"s"`
 	Dig  int    `json:"d,omitempty"`  // get: 0 = none (counter name), i>0 = hashes[i-1]
 	File string `json:"f,omitempty"`  // write
-	Fl   []bool `json:"fl,omitempty"` // get: clean,mkdir,enter,remove,clean2; close: child,removeall,clean
+	Fl   []bool `json:"fl,omitempty"` // get: clean,mkdir,enter,remove,clean2; close: child,removeall,clean; exec/ready: the five then the three
+	Fp   int    `json:"fp,omitempty"` // exec/ready: failure point inside the executor
 }
 
 type dhistory struct {
@@ -64,9 +65,33 @@ func (n *node) find(name string) (int, *node) {
 
 type dharness struct {
 	root   *node
-	fl     []bool // flags of the current operation
+	fl     []bool // flags of the current creator call
 	isGet  bool
-	cleans int // cleaner invocations in the current operation
+	cleans int // cleaner invocations since the last recorded event
+
+	// executor operations
+	fp        int  // failure point inside Execute/CheckReadiness
+	recording bool // between GetBuildDirectory and Close of an executor run
+	recSlot   int
+
+	info     *hcommon.Info
+	ops, obs []string
+}
+
+func (h *dharness) emit(kind, op, out string) {
+	h.info.Events++
+	h.info.Ops[kind]++
+	if len(out) > 5 && out[1:5] == "DGot" {
+		h.info.Outs["DGot"]++
+	} else {
+		h.info.Outs[out]++
+	}
+	if h.cleans > h.info.Extra["max_cleans_per_op"] {
+		h.info.Extra["max_cleans_per_op"] = h.cleans
+	}
+	h.ops = append(h.ops, op)
+	h.obs = append(h.obs, g.App("mkObs", out, g.Nat(h.cleans), h.listing()))
+	h.cleans = 0
 }
 
 func (h *dharness) flag(i int) bool { return i < len(h.fl) && h.fl[i] }
@@ -80,16 +105,45 @@ type memDirectory struct {
 	h      *dharness
 	n      *node
 	atRoot bool
+	depth  int // 0 = root build directory, 1 = an action's directory
+}
+
+// failsInExecutor: failure points of the executor on the action's directory.
+func (d *memDirectory) failsInExecutor(call, name string) bool {
+	if d.depth != 1 || !d.h.recording {
+		return false
+	}
+	switch d.h.fp {
+	case fpMkdirRoot:
+		return call == "mkdir" && (name == "root" || name == "check_readiness")
+	case fpEnterRoot:
+		return call == "enter" && name == "root"
+	case fpMkdirTmp:
+		return call == "mkdir" && name == "tmp"
+	case fpMkdirLogs:
+		return call == "mkdir" && name == "server_logs"
+	}
+	return false
 }
 
 func (d *memDirectory) Mkdir(name path.Component, perm os.FileMode) error {
 	if d.atRoot && d.h.flag(1) {
 		return errInjected
 	}
-	if _, c := d.n.find(name.String()); c != nil {
+	if d.failsInExecutor("mkdir", name.String()) {
+		return errInjected
+	}
+	_, c := d.n.find(name.String())
+	if c == nil {
+		d.n.children = append(d.n.children, &node{name: name.String()})
+	}
+	if d.depth == 1 && d.h.recording {
+		// the executor populates the action's directory: a DWrite of the model
+		d.h.emit("write", g.App("DWrite", g.Nat(d.h.recSlot), g.Str(name.String())), g.App("DWrote", g.Bool(c == nil)))
+	}
+	if c != nil {
 		return status.Error(codes.AlreadyExists, "exists")
 	}
-	d.n.children = append(d.n.children, &node{name: name.String()})
 	return nil
 }
 
@@ -97,11 +151,14 @@ func (d *memDirectory) EnterBuildDirectory(name path.Component) (builder.BuildDi
 	if d.atRoot && d.h.flag(2) {
 		return nil, errInjected
 	}
+	if d.failsInExecutor("enter", name.String()) {
+		return nil, errInjected
+	}
 	_, c := d.n.find(name.String())
 	if c == nil {
 		return nil, status.Error(codes.NotFound, "no such directory")
 	}
-	return &memDirectory{h: d.h, n: c}, nil
+	return &memDirectory{h: d.h, n: c, depth: d.depth + 1}, nil
 }
 
 func (d *memDirectory) Remove(name path.Component) error {
@@ -132,7 +189,7 @@ func (d *memDirectory) RemoveAll(name path.Component) error {
 }
 
 func (d *memDirectory) Close() error {
-	if !d.atRoot && d.h.flag(0) {
+	if d.depth == 1 && d.h.flag(0) {
 		return status.Error(codes.Aborted, "injected close failure")
 	}
 	return nil
@@ -171,7 +228,7 @@ func (h *dharness) listing() string {
 
 func executeDirs(hist dhistory) (string, *hcommon.Info, error) {
 	info := hcommon.NewInfo()
-	h := &dharness{root: &node{}}
+	h := &dharness{root: &node{}, info: info}
 	inv := cleaner.NewIdleInvoker(h.cleaner)
 	var counter atomic.Uint64
 	creator := builder.NewSharedBuildDirectoryCreator(
@@ -180,14 +237,12 @@ func executeDirs(hist dhistory) (string, *hcommon.Info, error) {
 			inv),
 		&counter)
 	slots := map[int]builder.BuildDirectory{}
-	var ops, obs []string
-	sawFailAfterMkdir, sawTwoOpen := false, false
+	sawFailAfterMkdir, sawTwoOpen, sawExec := false, false, false
 	ctx := context.Background()
 	for _, o := range hist.Ops {
 		slot := ((o.Slot % 4) + 4) % 4
 		h.cleans = 0
 		h.fl = o.Fl
-		var opTerm, out string
 		switch o.K {
 		case "get":
 			h.isGet = true
@@ -199,68 +254,61 @@ func executeDirs(hist dhistory) (string, *hcommon.Info, error) {
 				dp = &d
 				digTerm = g.Some(g.Str(hs))
 			}
-			opTerm = g.App("DGet", g.Nat(slot), digTerm,
+			opTerm := g.App("DGet", g.Nat(slot), digTerm,
 				g.App("mkGF", g.Bool(h.flag(0)), g.Bool(h.flag(1)), g.Bool(h.flag(2)), g.Bool(h.flag(3)), g.Bool(h.flag(4))))
 			if _, busy := slots[slot]; busy {
-				out = "DSkip"
+				h.emit("get", opTerm, "DSkip")
 				break
 			}
 			d, p, err := creator.GetBuildDirectory(ctx, dp)
 			if err != nil {
-				out = g.App("DErr", g.N(uint64(status.Code(err))))
+				h.emit("get", opTerm, g.App("DErr", g.N(uint64(status.Code(err)))))
 				if h.flag(2) && !h.flag(1) {
 					sawFailAfterMkdir = true
 				}
 			} else {
 				slots[slot] = d
-				out = g.App("DGot", g.Str(p.GetUNIXString()))
+				h.emit("get", opTerm, g.App("DGot", g.Str(p.GetUNIXString())))
 				if len(slots) >= 2 {
 					sawTwoOpen = true
 				}
 			}
 		case "close":
 			h.isGet = false
-			opTerm = g.App("DClose", g.Nat(slot),
+			opTerm := g.App("DClose", g.Nat(slot),
 				g.App("mkCF", g.Bool(h.flag(0)), g.Bool(h.flag(1)), g.Bool(h.flag(2))))
 			d, open := slots[slot]
 			if !open {
-				out = "DSkip"
+				h.emit("close", opTerm, "DSkip")
 				break
 			}
 			delete(slots, slot)
 			err := d.Close()
-			out = g.App("DClosed", g.N(uint64(status.Code(err))))
+			h.emit("close", opTerm, g.App("DClosed", g.N(uint64(status.Code(err)))))
 			if err != nil {
 				sawFailAfterMkdir = true
 			}
 		case "write":
-			opTerm = g.App("DWrite", g.Nat(slot), g.Str(o.File))
+			opTerm := g.App("DWrite", g.Nat(slot), g.Str(o.File))
 			h.fl = nil
 			d, open := slots[slot]
 			if !open {
-				out = "DSkip"
+				h.emit("write", opTerm, "DSkip")
 				break
 			}
 			err := d.Mkdir(path.MustNewComponent(o.File), 0o777)
-			out = g.App("DWrote", g.Bool(err == nil))
-		default:
-			continue
+			h.emit("write", opTerm, g.App("DWrote", g.Bool(err == nil)))
+		case "exec", "ready":
+			if _, busy := slots[slot]; busy {
+				break
+			}
+			h.runExecutor(creator, o, slot, o.K == "ready")
+			sawExec = true
 		}
-		info.Events++
-		info.Ops[o.K]++
-		if len(out) > 5 && out[1:5] == "DGot" {
-			info.Outs["DGot"]++
-		} else {
-			info.Outs[out]++
-		}
-		if h.cleans > info.Extra["max_cleans_per_op"] {
-			info.Extra["max_cleans_per_op"] = h.cleans
-		}
-		ops = append(ops, opTerm)
-		obs = append(obs, g.App("mkObs", out, g.Nat(h.cleans), h.listing()))
+		h.fl = nil
 	}
-	info.Nontrivial = sawFailAfterMkdir && sawTwoOpen
-	return g.App("CDirs", g.App("mkDCase", g.List(ops), g.List(obs))), info, nil
+	info.Nontrivial = sawFailAfterMkdir && (sawTwoOpen || sawExec)
+	return g.App("CDirs", g.App("mkDCase", g.List(h.ops), g.List(h.obs))), info, nil
 }
 
 func generateDirs(r *rng.R, thorough bool) json.RawMessage {
@@ -294,7 +342,7 @@ func generateDirs(r *rng.R, thorough bool) json.RawMessage {
 	for i := 0; i < n; i++ {
 		var o dop
 		switch x := r.Intn(100); {
-		case x < 45:
+		case x < 40:
 			o.K = "get"
 			o.Slot = pick(false)
 			if r.Chance(55) {
@@ -304,15 +352,28 @@ func generateDirs(r *rng.R, thorough bool) json.RawMessage {
 			if !o.Fl[0] && !o.Fl[1] && !o.Fl[2] {
 				open[o.Slot] = true
 			}
-		case x < 80:
+		case x < 72:
 			o.K = "close"
 			o.Slot = pick(true)
 			o.Fl = flags(3)
 			open[o.Slot] = false
-		default:
+		case x < 90:
 			o.K = "write"
 			o.Slot = pick(true)
 			o.File = files[r.Intn(len(files))]
+		default:
+			o.K = "exec"
+			if r.Chance(25) {
+				o.K = "ready"
+			}
+			o.Slot = pick(false)
+			if r.Chance(55) {
+				o.Dig = 1 + r.Intn(len(hashes))
+			}
+			o.Fl = flags(8)
+			if r.Chance(60) {
+				o.Fp = r.Intn(numFailPoints)
+			}
 		}
 		h.Ops = append(h.Ops, o)
 	}
